@@ -27,6 +27,9 @@ ALIGN_SHAPES = [
     ["struct", ["bool", ["varr", ["struct", ["u8", "bool"]], 2], "u8"]],
     ["struct", ["u5", ["farr", ["delim", ["struct", ["u8"]], 16], 1], "bool"]],
     ["union", ["u3", ["varr", ["struct", ["u16"]], 1]]],
+    # byte-aligned integer fields whose width is not a multiple of 8 (the tail bits live in a further byte)
+    ["struct", ["u8", "u12", "u4"]],
+    ["struct", ["i13", "u3", "u20", "u4"]],
 ]
 
 
